@@ -28,6 +28,17 @@ CLAIMS = {
              "documented in Props/C10.lean.",
         tech="Lean 4 proof (generalised scan-state induction) + exhaustive-small differential correspondence",
         ref="DESIGN.md §7 C10"),
+    "C20": dict(
+        text="Lean theorems by `decide +kernel` over tables regenerated from completion.rs / lexer.rs / token_kind.rs / "
+             "statement.rs / type.rs on every run: keywords_lex, types_lex, values_lex, statement_arms_match, "
+             "bang_offered_accepted_partial and bang_accepted_offered_partial with the exact exception lists, the negations of "
+             "the two full statements with concrete witnesses, and the unbounded bang_accepted_iff_key (the lexer accepts "
+             "exactly its table keys). The translator is cross-validated against Analysis::completion and the real lexer; class "
+             "completion (exact class set, one placeholder per template parameter) is explored on generated hierarchies.",
+        note="Known findings (8 words) pinned by snapshot tests; class-completion part is exploration until the SymbolMap model "
+             "covers it.",
+        tech="Lean 4 `decide +kernel` over translator-regenerated tables + lexer model; run-time cross-validation of the translator",
+        ref="DESIGN.md §7 C20"),
 }
 ALL = ["C%02d" % i for i in range(1, 21)]
 PENDING = "not yet claimed in this commit: machinery under construction (the technique applies; see DESIGN.md §7)"
